@@ -130,6 +130,7 @@ SmallPalette == <<JNull, JInt(0), S("x")>>
 DefaultPalette == <<JNull, JBool(TRUE), JInt(7), JNumU("1.5"), JNumU("2147483648"), JNumU("9223372036854775808"),
                     S("abc"), S(""), WideStr, JArr(<<>>), JArr(<<JBool(TRUE)>>), O(<<>>), O(<< <<"k", JBool(TRUE)>> >>)>>
 
+QuickDefaults == {1, 3, 4, 7, 9, 11, 13}      \* null, 7, 1.5, "abc", "Ā", [true], {"k":true}
 (* a mutation = [t: new tree, a: action name, rs: rules of which at least one must be reported] *)
 M(t, a, rs) == [t |-> t, a |-> a, rs |-> rs]
 
@@ -137,7 +138,7 @@ DropKeyMs(t) == UNION {{M(ReplaceAt(t, n.p, JObj(RemoveIdx(SubAt(t, n.p).kv, i))
                           : n \in {x \in AllNodes(t) : x.j = "obj"}}
 RetypeMs(t) == LET pal == IF Wide THEN Palette ELSE SmallPalette IN
                UNION {{M(ReplaceAt(t, n.p, pal[i]), "Retype", {}) : i \in {i \in 1..Len(pal) : pal[i].j # n.j}} : n \in AllNodes(t)}
-DupKeyMs(t) == UNION {UNION {{M(ReplaceAt(t, n.p, With(SubAt(t, n.p), SubAt(t, n.p).kv[i][1], SubAt(t, n.p).kv[i][2])), "DupKey", {}),
+DupKeyMs(t) == UNION {UNION {{M(ReplaceAt(t, n.p, With(SubAt(t, n.p), SubAt(t, n.p).kv[i][1], IF Wide THEN SubAt(t, n.p).kv[i][2] ELSE JNull)), "DupKey", {}),
                               M(ReplaceAt(t, n.p, With(SubAt(t, n.p), SubAt(t, n.p).kv[i][1], JNull)), "DupKey", {})}
                                 : i \in 1..Len(SubAt(t, n.p).kv)} : n \in {x \in AllNodes(t) : x.j = "obj"}}
 BadNameMs(t) ==
@@ -176,7 +177,7 @@ DupSymbolMs(t) ==
 BadDefaultMs(t) ==
   UNION {LET f == SubAt(t, n.p) IN
          {M(ReplaceAt(t, n.p, SetKey(f, "default", DefaultPalette[i])), "BadDefault", {})
-            : i \in {i \in 1..Len(DefaultPalette) : ~(Has(f, "default") /\ Get(f, "default") = DefaultPalette[i])}}
+            : i \in {i \in 1..Len(DefaultPalette) : (Wide \/ i \in QuickDefaults) /\ ~(Has(f, "default") /\ Get(f, "default") = DefaultPalette[i])}}
            : n \in {x \in AllNodes(t) : IsField(x)}}
 DanglingMs(t) ==
   UNION {{M(ReplaceAt(t, n.p, S(b)), "Dangling", {"dangling-reference"}) : b \in {"Undefined", "no.such.Name"}}
